@@ -119,6 +119,11 @@ func generateEtagFromInts(ns ...int64) string {
 }
 
 func (b FileBucket) NewRangeReaderEtag(_ context.Context, key string, offset, length int64, etag string) (io.ReadCloser, string, int, error) {
+	// a key must name a file below the bucket directory: reject absolute keys and
+	// keys that climb out with ".." however they are spelled
+	if !filepath.IsLocal(filepath.FromSlash(key)) {
+		return nil, "", 404, fmt.Errorf("invalid key %q", key)
+	}
 	name := filepath.Join(b.path, key)
 	file, err := os.Open(name)
 	defer file.Close()
